@@ -1,6 +1,6 @@
 (* Entry points of the extracted model: one number per model function. *)
 From Coq Require Import ZArith List.
-From Tdda Require Import Base.Sexp RefTest.Argv RefTest.Tagged Serial.DateFmt RefTest.CheckStrings RefTest.Artefacts RefTest.Regen Constraints.Model Constraints.Detect Constraints.Serialise Constraints.Cli Rexpy.Coverage Rexpy.Wire Rexpy.Prng.
+From Tdda Require Import Base.Sexp RefTest.Argv RefTest.Tagged Serial.DateFmt RefTest.CheckStrings RefTest.Artefacts RefTest.Regen Constraints.Model Constraints.Detect Constraints.Serialise Constraints.Cli Rexpy.Coverage Rexpy.Wire Rexpy.Prng RefTest.FrameCmp.
 Import ListNotations.
 Open Scope Z_scope.
 
@@ -28,5 +28,7 @@ Definition dispatch (n : Z) (s : sexp) : sexp :=
   | 20 => escape_entry s
   | 21 => batch_entry s
   | 22 => prng_entry s
+  | 23 => framecmp_entry s
+  | 24 => typesmatch_entry s
   | _ => L [A (-1)]
   end.
